@@ -12,7 +12,11 @@ Relations
          chromosomes (1,2,1,2,...), are shuffled or descending; .hap(.gz+tbi) files; POP fields AND a .bp file
          (samples permuted) for the same logical data; --id / --sample / --region subsets; the written
          VCF / PGEN is read back with pysam / pgenlib.  The runs of one input (POP source, .bp source, VCF /
-         PGEN input and output) must give equal answers.
+         PGEN input and output) must give equal answers.  30% of the cases also carry what else the command takes:
+         missing calls ('.|.', '.|1') with and without --discard-missing, calls written unphased, --maf, --chunk-size.
+  Both relations end with a width-boundary stream (np.uint8 cells / ancestry codes, np.int16 / np.uintc index arrays):
+  254-257 ancestry labels, allele indices 127|128|200|253, 255-300 haplotypes, 255-257 variants per haplotype,
+  255-257 samples.
 """
 import os
 import shutil
@@ -27,7 +31,7 @@ PROP = "C04"
 CLAIMED = True
 COQ_MODULES = ["C04_Check", "C04_CheckSeq", "C04_Proofs", "C04_ProofsSet", "C04_ProofsFile", "C04_ProofsSpec", "C04_ProofsAnc",
                "C04_Legacy", "C04_ProofsPerm", "C04_ProofsDup", "C04_ProofsSeq", "C04_ProofsBp", "C04_ProofsOrder",
-               "C04_ProofsTotal"]
+               "C04_ProofsTotal", "C04_ModelOpt", "C04_CheckOpt", "C04_ProofsOpt", "C04_ProofsOptC"]
 PROPERTY_MODULE = "C04_Property"
 ALLOWED_AXIOMS = []
 RULE = (
@@ -41,7 +45,12 @@ RULE = (
     "interleaved, shuffled or descending (+ POP fields and a .bp file with permuted and extra samples for the same "
     "data), run through "
     "transform_haps or the CLI with --region/--id/--sample; non-trivial = an output record with both 0 and 1 cells, or "
-    "a haplotype omitted. Distinct = distinct canonical JSON."
+    "a haplotype omitted. 30% of the file cases add missing calls with/without --discard-missing (one requested sample "
+    "stays complete), unphased calls, --maf (thresholds on / next to / between attainable frequencies) and --chunk-size. "
+    "Width stream (3 api + 2 file cases per quick run, 30 + 16 thorough, + 7 corpus files): label dictionaries / POP "
+    "fields / .bp tracts with 254-257 distinct labels (257 is refused by both readers with OverflowError), codes and "
+    "allele indices on both sides of 127|128 and at 253|254|255, 255-300 haplotypes, 255-257 variants in one haplotype, "
+    "255-257 samples. Distinct = distinct canonical JSON."
 )
 TRUSTED = [
     "pysam/bgzip/tabix, cyvcf2 and pgenlib store and return the records, samples and GT/POP values they are given "
@@ -50,11 +59,27 @@ TRUSTED = [
     "matters, except in the api relation where chromosome names and IDs are also ordered (Haplotypes.sort): there the "
     "strings are interned in sorted order, so the integer order is Python's string order",
     "region semantics: REF alleles are one base long, so htslib's overlap test and the PGEN reader's position test coincide",
+    "the genotype object and the haplotype collection that transform_haps hands to Haplotypes[Ancestry].transform are "
+    "recorded by wrapping that method from the harness process (no source change); ancestry codes are decoded through "
+    "the object's own ancestry_labels",
     "'reported' is observed as a WARNING+ log record of haptools.transform that names an absent variant / omitted "
     "haplotype or says that variants could not be found",
 ]
 ASSUMPTIONS = [
-    "genotypes are phased and complete (check_missing / check_phase / --discard-missing / --maf / --chunk-size are not modelled)",
+    "the property speaks about phased, complete genotype matrices: on a missing call without --discard-missing and on an "
+    "unphased heterozygous call the run must fail (model: ValueError; holds accepts any failure there); with "
+    "--discard-missing holds demands that every sample without any missing call is kept and that the kept samples' cells "
+    "are the specification; which other samples go is pinned by agree only (code: a missing call at a loaded record)",
+    "at most 256 distinct ancestry labels among the loaded POP fields / in the tracts of the loaded samples of the .bp "
+    "file (np.uint8 codes; the 257th label raises OverflowError under numpy >= 2 - modelled, outside the demanded domain); "
+    "at most 254 alleles per variant (allele indices 254 and 255 are the missing-call codes of the uint8 matrix)",
+    "--maf: the comparison at the threshold itself is the code's float arithmetic (agree: IEEE doubles, C13_Check.rareF); "
+    "holds demands keep / drop only when the exact MAF is 1e-9 away from the exact value of the threshold",
+    "haploid calls ('0', stored as (0, 254)) are not generated: GenotypesVCF counts 254 as missing, GenotypesAncestry "
+    "does not (C13's subject), so the POP and .bp runs would discard different samples",
+    "haplotypes have at least one variant in the api relation (the property's quantifier says 1..many): for a haplotype "
+    "without V lines Haplotype.transform raises ValueError (a broadcasting accident) while Haplotypes.transform answers "
+    "all-1, also for an absent label; the file relation rarely writes one (set-wise path only)",
     "genotype variant IDs are distinct (Genotypes.index raises otherwise); .hap IDs are distinct and differ from contig names",
     "ancestry labels have at most 6 characters and contigs at most 10 (the .bp reader's fixed-width fields)",
     "haplotype start >= 1 (a start of 0 cannot be written as a VCF POS)",
@@ -209,6 +234,19 @@ def gen_haps(rng, variants, data, labels, anc_at=None, missing_p=0.12, absent_al
                     {"id": f"R{i}", "chrom": c, "start": a, "end": a + int(rng.integers(1, 30)), "anc": None,
                      "vars": [], "rep": True})
     return haps
+
+
+def allele_names(k):
+    """k distinct allele strings by formula: A C G T AA AC ... (REF first)"""
+    import itertools
+
+    out = []
+    for ln in range(1, 6):
+        for t in itertools.product("ACGT", repeat=ln):
+            out.append("".join(t))
+            if len(out) == k:
+                return out
+    return out
 
 
 def hap_term(h, I, anc):
@@ -371,8 +409,112 @@ class Api(Relation):
             case = self._add_sequence(rng, case)
         return case
 
+    WIDTH_KINDS = ["labels", "alleles", "many-haps", "long-hap", "many-samples"]
+
+    def _width_case(self, rng, kind=None):
+        """sizes and values straddling the fixed-width arrays of the transforms: np.uint8 genotype cells and ancestry
+        codes (label dictionaries with 254 / 255 / 256 entries, codes 127 | 128 and 254 | 255; allele indices 127 |
+        128 | 200 | 253 of variants with 130 / 254 alleles), np.int16 `ancestries`, np.uintc index arrays (255 / 256 /
+        257 / 300 haplotypes, distinct (variant, allele) keys and variants per haplotype, samples).  Labels, alleles
+        and IDs by formula; single-shot (no operation sequence)."""
+        kind = kind or self.WIDTH_KINDS[int(rng.integers(0, len(self.WIDTH_KINDS)))]
+        anc = None
+        if kind == "labels":
+            nl = int(rng.choice([254, 255, 256]))
+            n, p = 2, 3
+            variants = [[f"v{j}", ["A", "C", "G"][: 2 + j % 2]] for j in range(p)]
+            data = [[[int(rng.integers(0, len(variants[j][1]))) for _ in range(2)] for j in range(p)] for _ in range(n)]
+            codes_of = [int(x) for x in rng.permutation(nl)] if rng.random() < 0.5 else list(range(nl))
+            lab2code = [[f"L{i}", codes_of[i]] for i in range(nl)]
+            edge = sorted({0, 1, 126, 127, 128, 129, nl - 2, nl - 1} & set(range(nl)))
+            code2lab = {c: l for l, c in lab2code}
+            codes = [[[int(rng.choice(edge)) for _ in range(2)] for _ in range(p)] for _ in range(n)]
+            anc = {"labels": lab2code, "codes": codes}
+            haps = []
+            for i in range(6):
+                s0, j0, t0 = int(rng.integers(0, n)), int(rng.integers(0, p)), int(rng.integers(0, 2))
+                lab = code2lab[codes[s0][j0][t0]] if i < 4 else (ABSENT_LABEL if i == 4 else f"L{nl - 1}")
+                a = variants[j0][1][data[s0][j0][t0]]
+                haps.append({"id": f"H{i}", "chrom": "1", "start": 10 * (j0 + 1), "end": 10 * (j0 + 1) + 1, "anc": lab,
+                             "vars": [[variants[j0][0], a, 10 * (j0 + 1), 10 * (j0 + 1) + 1]], "rep": False})
+        elif kind == "alleles":
+            K = int(rng.choice([130, 254]))
+            als = allele_names(K)
+            edge = [0, 1, 127, 128, 129] if K == 130 else [0, 127, 128, 200, 252, 253]
+            n = 3
+            variants = [["w0", als], ["w1", ["A", "C", "G"]]]
+            data = [[[int(rng.choice(edge)), int(rng.choice(edge))], [int(rng.integers(0, 3)), int(rng.integers(0, 3))]]
+                    for _ in range(n)]
+            haps = [{"id": f"H{i}", "chrom": "1", "start": 10, "end": 10 + len(als[a]), "anc": None,
+                     "vars": [["w0", als[a], 10, 10 + len(als[a])]], "rep": False} for i, a in enumerate(edge)]
+            a = edge[int(rng.integers(0, len(edge)))]
+            haps.append({"id": "HX", "chrom": "1", "start": 10, "end": 21, "anc": None,
+                         "vars": [["w0", als[a], 10, 10 + len(als[a])], ["w1", "C", 20, 21]], "rep": False})
+            if rng.random() < 0.5:
+                codes = [[[int(rng.integers(0, 2)) for _ in range(2)] for _ in range(2)] for _ in range(n)]
+                anc = {"labels": [["YRI", 0], ["CEU", 1]], "codes": codes}
+                for h in haps:
+                    h["anc"] = ["YRI", "CEU", ABSENT_LABEL][int(rng.choice([0, 0, 1, 1, 2]))]
+        elif kind == "many-haps":
+            m = int(rng.choice([255, 256, 257, 300]))
+            n, p = int(rng.integers(1, 3)), 4
+            variants = [[f"v{j}", ["A", "C", "G"][: 2 + j % 2]] for j in range(p)]
+            data = [[[int(rng.integers(0, len(variants[j][1]))) for _ in range(2)] for j in range(p)] for _ in range(n)]
+            if rng.random() < 0.5:
+                codes = [[[int(rng.integers(0, 2)) for _ in range(2)] for _ in range(p)] for _ in range(n)]
+                anc = {"labels": [["YRI", 0], ["CEU", 1]], "codes": codes}
+            haps = []
+            for i in range(m):
+                cols = sorted(rng.choice(p, size=int(rng.integers(1, 3)), replace=False).tolist())
+                hv = [[variants[j][0], variants[j][1][int(rng.integers(0, len(variants[j][1])))], 10 * (j + 1),
+                       10 * (j + 1) + 1] for j in cols]
+                haps.append({"id": f"H{i}", "chrom": "1", "start": hv[0][2], "end": hv[-1][3],
+                             "anc": (["YRI", "CEU", ABSENT_LABEL][int(rng.choice([0, 0, 1, 1, 2]))] if anc else None),
+                             "vars": hv, "rep": False})
+        elif kind == "long-hap":
+            m = int(rng.choice([255, 256, 257]))
+            n, p = 2, m + 1
+            variants = [[f"v{j}", ["A", "C"]] for j in range(p)]
+            base = [int(rng.integers(0, 2)) for _ in range(p)]
+            data = [[[base[j], base[j] if rng.random() < 0.995 else 1 - base[j]] for j in range(p)] for _ in range(n)]
+            if rng.random() < 0.5:
+                flip = int(rng.integers(0, p))
+                codes = [[[0, int(s == 1 and j == flip)] for j in range(p)] for s in range(n)]
+                anc = {"labels": [["YRI", 0], ["CEU", 1]], "codes": codes}
+            cols = list(range(m)) if rng.random() < 0.5 else list(range(1, m + 1))
+            hv = [[variants[j][0], variants[j][1][base[j]], 10 * (j + 1), 10 * (j + 1) + 1] for j in cols]
+            hv2 = [list(v) for v in hv]
+            hv2[-1][1] = variants[cols[-1]][1][1 - base[cols[-1]]]      # differs in the LAST (256th / 257th) allele only
+            haps = [{"id": "H0", "chrom": "1", "start": hv[0][2], "end": hv[-1][3], "anc": ("YRI" if anc else None),
+                     "vars": hv, "rep": False},
+                    {"id": "H1", "chrom": "1", "start": hv[0][2], "end": hv[-1][3], "anc": ("YRI" if anc else None),
+                     "vars": hv2, "rep": False},
+                    {"id": "H2", "chrom": "1", "start": hv[-1][2], "end": hv[-1][3], "anc": ("CEU" if anc else None),
+                     "vars": [hv[-1]], "rep": False}]
+        else:  # many-samples
+            n, p = int(rng.choice([255, 256, 257])), 2
+            variants = [["v0", ["A", "C"]], ["v1", ["G", "T", "C"]]]
+            data = [[[int(rng.integers(0, 2)), int(rng.integers(0, 2))], [int(rng.integers(0, 3)), int(rng.integers(0, 3))]]
+                    for _ in range(n)]
+            if rng.random() < 0.5:
+                codes = [[[int(rng.integers(0, 2)) for _ in range(2)] for _ in range(p)] for _ in range(n)]
+                anc = {"labels": [["YRI", 0], ["CEU", 1]], "codes": codes}
+            haps = [{"id": "H0", "chrom": "1", "start": 10, "end": 11, "anc": ("YRI" if anc else None),
+                     "vars": [["v0", "C", 10, 11]], "rep": False},
+                    {"id": "H1", "chrom": "1", "start": 10, "end": 21, "anc": ("CEU" if anc else None),
+                     "vars": [["v0", "A", 10, 11], ["v1", "C", 20, 21]], "rep": False},
+                    {"id": "H2", "chrom": "1", "start": 20, "end": 21, "anc": (ABSENT_LABEL if anc else None),
+                     "vars": [["v1", "T", 20, 21]], "rep": False}]
+        return {"nsamp": n, "vars": variants, "data": data, "anc": anc, "haps": haps,
+                "kind": ("ancestry" if anc else "plain") + "+width-" + kind}
+
     def generate(self, rng, n, tier):
-        return [self._case(rng, small=(i % 4 == 0)) for i in range(n)]
+        out = [self._case(rng, small=(i % 4 == 0)) for i in range(n)]
+        # the width-boundary stream (own generator state: the other cases do not move when it changes)
+        wr = np.random.default_rng([int(rng.integers(0, 2**31)), 4])
+        nw = 3 if tier == "quick" else 30
+        return out + [self._width_case(wr, self.WIDTH_KINDS[(i + int(wr.integers(0, 5))) % 5] if nw < 5 else
+                                       self.WIDTH_KINDS[i % 5]) for i in range(nw)]
 
     def exhaustive(self, tier):
         # 1 sample x 2 variants (2 and 3 alleles): every genotype row x every one/two-allele haplotype pair
@@ -707,10 +849,13 @@ def label_at(tracts, chrom, pos):
     return None
 
 
-def write_vcf(path, samples, variants, data, pop=None, index=True):
+def write_vcf(path, samples, variants, data, pop=None, index=True, unph=()):
     """bgzipped + tabix-indexed VCF, or (index=False) the plain un-indexed text file with the records in the given
-    order, whatever it is; pop[s][v][t] = label or None"""
+    order, whatever it is; pop[s][v][t] = label or None; unph = [sample index, record index] of the calls written
+    with '/'; a cell 255 is written '.'"""
     import pysam
+
+    unph = {(int(a), int(b)) for a, b in unph}
 
     with open(path, "w") as f:
         f.write("##fileformat=VCFv4.2\n")
@@ -728,7 +873,7 @@ def write_vcf(path, samples, variants, data, pop=None, index=True):
             cells = []
             for s in range(len(samples)):
                 a, b = data[s][j]
-                g = f"{'.' if a == 255 else a}|{'.' if b == 255 else b}"
+                g = f"{'.' if a == 255 else a}{'/' if (s, j) in unph else '|'}{'.' if b == 255 else b}"
                 if pop is not None:
                     g += f":{pop[s][j][0]},{pop[s][j][1]}"
                 cells.append(g)
@@ -742,8 +887,10 @@ def write_vcf(path, samples, variants, data, pop=None, index=True):
     return path + ".gz"
 
 
-def write_pgen(prefix, samples, variants, data):
+def write_pgen(prefix, samples, variants, data, unph=()):
     import pgenlib
+
+    unph = {(int(a), int(b)) for a, b in unph}
 
     with open(prefix + ".psam", "w") as f:
         f.write("#IID\tSEX\n")
@@ -758,8 +905,15 @@ def write_pgen(prefix, samples, variants, data):
     with pgenlib.PgenWriter(filename=(prefix + ".pgen").encode(), sample_ct=n, variant_ct=len(variants),
                             nonref_flags=False, allele_ct_limit=maxct, hardcall_phase_present=True) as w:
         for j, v in enumerate(variants):
-            row = np.array([data[s][j][t] for s in range(n) for t in range(2)], dtype=np.int32)
-            w.append_alleles(row, all_phased=True, allele_ct=len(v[3]))
+            row = np.array([(-9 if data[s][j][t] == 255 else data[s][j][t]) for s in range(n) for t in range(2)],
+                           dtype=np.int32)
+            if any((s, j) in unph for s in range(n)):
+                # phasepresent may only be set for heterozygous calls
+                pp = np.array([(s, j) not in unph and data[s][j][0] != data[s][j][1] and 255 not in data[s][j]
+                               for s in range(n)], dtype=np.uint8)
+                w.append_partially_phased(row, pp, allele_ct=len(v[3]))
+            else:
+                w.append_alleles(row, all_phased=True, allele_ct=len(v[3]))
     return prefix + ".pgen"
 
 
@@ -891,11 +1045,13 @@ def fix_runs(inp, k=0):
     cli = bool(old and old[0].get("cli"))
     gz = bool(srt and (region is not None or (old and old[0].get("gz", True))))
     dup = len({v[0] for v in inp["vars"]}) < len(inp["vars"])
+    # a half-missing call ('.|1') cannot be stored in a PGEN file: such data only goes through VCF inputs
+    dup = dup or any((c[0] == 255) != (c[1] == 255) for row in inp["data"] for c in row)
     if use_anc:
         runs = [{"fmt": "vcf", "src": "pop"}, {"fmt": "vcf", "src": "bp"}]
         if (k % 2 == 0 or not srt) and not dup:
             runs.append({"fmt": "pgen", "src": "bp"})
-    elif srt or region is None:
+    elif srt or region is None or dup:
         runs = [{"fmt": "vcf", "src": "none"}] + ([] if dup else [{"fmt": "pgen", "src": "none"}])
     else:
         runs = [{"fmt": "pgen", "src": "none"}, {"fmt": "pgen", "src": "none"}]
@@ -909,12 +1065,16 @@ def fix_runs(inp, k=0):
 
 class File(Relation):
     name = "file"
-    coq_module = "C04_CheckSeq"
-    coq_check = "check_filex"
-    coq_case_type = "xcase"
-    coq_model = "model_filex"
-    coq_imports = ["Tracts", "C04_Model", "C04_Check"]
+    coq_module = "C04_CheckOpt"
+    coq_check = "check_fileo"
+    coq_case_type = "ocase"
+    coq_model = "model_fileo"
+    coq_imports = ["Tracts", "C04_Model", "C04_Check", "C04_ModelOpt"]
     budget = {"quick": 240, "thorough": 3000}
+
+    def preamble(self):
+        return "From Coq Require Import PrimFloat.\nOpen Scope Z_scope."
+
     max_cases_per_shard = 120
     timeout_per_case = 180
     anchors = [
@@ -1040,10 +1200,145 @@ class File(Relation):
         case = {"samples": samples, "vars": variants, "data": data, "haps": haps, "indexed": indexed, "region": region,
                 "ids": ids, "samp": samp, "anc": anc, "runs": [{"cli": cli, "gz": gz}], "kind": kind, "layout": layout,
                 "gt_order": gt_order}
+        if rng.random() < 0.3:
+            case = self._add_opts(np.random.default_rng([int(rng.integers(0, 2**31)), 5]), case)
+        return fix_runs(case, k)
+
+    MAF_THRESHOLDS = [0.0, 0.05, 0.1, 0.125, 0.2, 0.25, 0.3, 0.5, 0.75]
+
+    def _add_opts(self, rng, case):
+        """what `haptools transform` takes beyond --region/--id/--sample/--ancestry: missing calls ('.|.', rarely
+        '.|1') with and without --discard-missing, calls written unphased (heterozygous: refused; homozygous or in a
+        record that is not loaded: harmless), --maf on the output (thresholds on, next to and between attainable
+        frequencies), --chunk-size 1 / 2 / p / > p"""
+        samples, variants = case["samples"], case["vars"]
+        n, p = len(samples), len(variants)
+        data = [[list(c) for c in row] for row in case["data"]]
+        requested = [i for i, s in enumerate(samples) if case["samp"] is None or s in case["samp"]]
+        half_ok = is_sorted_vars(variants)      # '.|1' needs a VCF input, which an unsorted file cannot always be
+        opts = {}
+        unph = []
+        r = rng.random()
+        if r < 0.55:
+            # missing calls; one requested sample stays complete (an output without samples is C07's subject)
+            keep_one = requested[int(rng.integers(0, len(requested)))] if requested else None
+            cand = [i for i in range(n) if i != keep_one]
+            for _ in range(int(rng.integers(1, 4))):
+                if not cand:
+                    break
+                s0, j0 = cand[int(rng.integers(0, len(cand)))], int(rng.integers(0, p))
+                data[s0][j0] = [255, 255] if (rng.random() < 0.8 or not half_ok) else (
+                    [255, data[s0][j0][1]] if rng.random() < 0.5 else [data[s0][j0][0], 255])
+            opts["discard"] = bool(rng.random() < 0.65)
+            if not cand and rng.random() < 0.5:
+                data[0][int(rng.integers(0, p))] = [255, 255]          # the only sample: the run must refuse
+                opts["discard"] = False
+        elif r < 0.65:
+            opts["discard"] = True                                        # nothing to discard
+        if rng.random() < 0.3:
+            for _ in range(int(rng.integers(1, 3))):
+                unph.append([int(rng.integers(0, n)), int(rng.integers(0, p))])
+        if rng.random() < 0.5:
+            nreq = max(1, len(requested))
+            att = [k / (2 * nreq) for k in range(0, nreq + 1)]
+            thr = float(rng.choice(self.MAF_THRESHOLDS + att + att))
+            if rng.random() < 0.15:
+                thr = float(np.nextafter(thr, 1.0 if rng.random() < 0.5 else -1.0))
+            opts["maf"] = thr
+        if rng.random() < 0.4:
+            opts["chunk"] = int(rng.choice([1, 2, max(1, p), p + 3]))
+        return dict(case, data=data, opts=opts, unph=unph, kind=case["kind"] + "+options")
+
+    WIDTH_KINDS = ["labels", "labels", "alleles"]
+
+    def _width_case(self, rng, k, kind=None):
+        """np.uint8 ancestry codes and genotype cells at their limits: 254 / 255 / 256 / 257 distinct ancestry labels
+        in the POP fields that are loaded and in the tracts of the .bp file (the 257th is refused with OverflowError
+        by both readers; with a --sample / --region subset one source may stay below the limit while the other does
+        not), haplotypes labelled with the first, the 128th, the 256th label; variants with 130 / 254 alleles and
+        haplotypes listing allele #127 / #128 / #200 / #253"""
+        kind = kind or self.WIDTH_KINDS[int(rng.integers(0, len(self.WIDTH_KINDS)))]
+        if kind == "labels":
+            nl = int(rng.choice([254, 255, 256, 256, 257, 257]))
+            n = 2
+            p = int(rng.integers(65, 68))
+            samples = ["S1", "a_b"]
+            variants = [[f"v{j}", "1", 10 * (j + 1), ["A", "C"]] for j in range(p)]
+            data = [[[int(rng.integers(0, 2)), int(rng.integers(0, 2))] for _ in range(p)] for _ in range(n)]
+            off = int(rng.integers(0, nl))
+            tracts, where, c = {}, {}, 0
+            for si, s in enumerate(samples):
+                tracts[s] = []
+                for t in range(2):
+                    tl = []
+                    for j in range(p):
+                        li = (off + c) % nl
+                        where.setdefault(li, (si, j, t))
+                        tl.append([f"L{li}", "1", variants[j][2] if j < p - 1 else MAXI])
+                        c += 1
+                    tracts[s].append(tl)
+            haps = []
+            full = rng.random() < 0.8
+            if full:
+                # one haplotype lists every record: all POP fields are loaded
+                s0, t0 = int(rng.integers(0, n)), int(rng.integers(0, 2))
+                haps.append({"id": "HW", "chrom": "1", "start": 10, "end": 10 * p + 1, "anc": f"L{off}",
+                             "vars": [[v[0], v[3][data[s0][j][t0]], v[2], v[2] + 1] for j, v in enumerate(variants)],
+                             "rep": False})
+            for i, li in enumerate([0, 127, 128, 254, 255, nl - 1]):
+                if li >= nl:
+                    continue
+                si, j, t = where[li]
+                v = variants[j]
+                haps.append({"id": f"H{i}", "chrom": "1", "start": v[2], "end": v[2] + 1, "anc": f"L{li}",
+                             "vars": [[v[0], v[3][data[si][j][t]], v[2], v[2] + 1]], "rep": False})
+            haps.append({"id": "HZ", "chrom": "1", "start": 20, "end": 21, "anc": ABSENT_LABEL,
+                         "vars": [["v1", "A", 20, 21]], "rep": False})
+            samp = None if rng.random() < 0.7 else [samples[int(rng.integers(0, n))]]
+            region = None
+            indexed = bool(rng.random() < 0.3)
+            if indexed:
+                haps = sorted(haps, key=lambda h: (h["chrom"], h["start"], h["end"], h["id"]))
+                if rng.random() < 0.5:
+                    region = ["1", 10, 10 * int(rng.integers(p // 2, p + 1)) + 1]
+            case = {"samples": samples, "vars": variants, "data": data, "haps": haps, "indexed": indexed,
+                    "region": region, "ids": None, "samp": samp,
+                    "anc": {"tracts": tracts, "bp_order": samples[::-1] if rng.random() < 0.5 else samples},
+                    "runs": [{"cli": bool(rng.random() < 0.3), "gz": True}], "kind": f"ancestry+width-labels-{nl}",
+                    "layout": "HV", "gt_order": "sorted"}
+            return fix_runs(case, k)
+        K = int(rng.choice([130, 254]))
+        als = allele_names(K)
+        edge = [0, 1, 127, 128, 129] if K == 130 else [0, 127, 128, 200, 252, 253]
+        samples = ["S1", "HG00096", "x_1"]
+        n = len(samples)
+        variants = [["w0", "1", 10, als], ["w1", "1", 20, ["A", "C", "G"]]]
+        data = [[[int(rng.choice(edge)), int(rng.choice(edge))], [int(rng.integers(0, 3)), int(rng.integers(0, 3))]]
+                for _ in range(n)]
+        use_anc = rng.random() < 0.4
+        labs = ["YRI", "CEU"]
+        haps = [{"id": f"H{i}", "chrom": "1", "start": 10, "end": 10 + len(als[a]),
+                 "anc": (labs[int(rng.integers(0, 2))] if use_anc else None),
+                 "vars": [["w0", als[a], 10, 10 + len(als[a])]], "rep": False} for i, a in enumerate(edge)]
+        a = edge[int(rng.integers(0, len(edge)))]
+        haps.append({"id": "HX", "chrom": "1", "start": 10, "end": 21, "anc": (labs[0] if use_anc else None),
+                     "vars": [["w0", als[a], 10, 10 + len(als[a])], ["w1", "C", 20, 21]], "rep": False})
+        anc = None
+        if use_anc:
+            tracts = {s: [[[labs[int(rng.integers(0, 2))], "1", int(rng.choice([10, 15, 19]))],
+                           [labs[int(rng.integers(0, 2))], "1", MAXI]] for _ in range(2)] for s in samples}
+            anc = {"tracts": tracts, "bp_order": [samples[i] for i in rng.permutation(n)]}
+        case = {"samples": samples, "vars": variants, "data": data, "haps": haps, "indexed": False, "region": None,
+                "ids": None, "samp": None, "anc": anc, "runs": [{"cli": bool(rng.random() < 0.3), "gz": True}],
+                "kind": ("ancestry" if use_anc else "plain") + f"+width-alleles-{K}", "layout": "HV", "gt_order": "sorted"}
         return fix_runs(case, k)
 
     def generate(self, rng, n, tier):
-        return [self._case(rng, k) for k in range(n)]
+        out = [self._case(rng, k) for k in range(n)]
+        wr = np.random.default_rng([int(rng.integers(0, 2**31)), 6])
+        nw = 2 if tier == "quick" else 16
+        kinds = ["labels", "alleles"] if nw == 2 else self.WIDTH_KINDS
+        return out + [self._width_case(wr, k, kinds[k % len(kinds)]) for k in range(nw)]
 
     def exhaustive(self, tier):
         # small scope, all combinations: 2 samples x 2 records (bi- and tri-allelic), every pair of haplotypes
@@ -1169,9 +1464,9 @@ class File(Relation):
             if pop is not None and any(x is None for s in pop for c in s for x in c):
                 return {"skipped": "pop-undefined"}
             gtf = write_vcf(os.path.join(d, "g.vcf"), inp["samples"], inp["vars"], inp["data"], pop,
-                            index=run.get("gz", True))
+                            index=run.get("gz", True), unph=inp.get("unph") or ())
         else:
-            gtf = write_pgen(os.path.join(d, "g"), inp["samples"], inp["vars"], inp["data"])
+            gtf = write_pgen(os.path.join(d, "g"), inp["samples"], inp["vars"], inp["data"], unph=inp.get("unph") or ())
         if run["src"] == "bp":
             write_bp(os.path.join(d, "g.bp"), anc["bp_order"], anc["tracts"])
         outf = os.path.join(d, "out." + run["out"])
@@ -1204,7 +1499,48 @@ class File(Relation):
 
         def warned():
             pat = re.compile(r"variant\(?s?\)? .*(could not be found|absent|missing|not found)", re.I)
-            return any(pat.search(m) or any(n in m for n in names) for m in msgs)
+            # ("All samples were discarded! Check that none of your variants are missing genotypes" is another report)
+            return any(pat.search(m) or any(n in m for n in names) for m in msgs if "samples were discarded" not in m)
+
+        opts = inp.get("opts") or {}
+        # record what transform_haps hands to Haplotypes[Ancestry].transform (genotype object, haplotype collection)
+        import haptools.transform as _tr
+        from haptools.data import haplotypes as _hm
+
+        seen = []
+
+        def wrap(orig):
+            def transform(self, gts, hap_gts=None):
+                try:
+                    g = {"samples": [str(x) for x in gts.samples],
+                         "vars": [[str(v["id"]), str(v["chrom"]), int(v["pos"])] for v in gts.variants],
+                         "data": np.asarray(gts.data)[:, :, :2].astype(int).tolist(),
+                         "haps": [str(k) for k in self.data.keys()], "anc": None}
+                    if len(gts.variants) == 0:
+                        # an empty match leaves data with shape (0, 0, 0): no cells either way
+                        g["data"] = [[] for _ in gts.samples]
+                    if getattr(gts, "ancestry", None) is not None:
+                        inv = {int(c): str(l) for l, c in gts.ancestry_labels.items()}
+                        g["anc"] = [[[inv.get(int(c), "?") for c in cell] for cell in row]
+                                    for row in np.asarray(gts.ancestry).tolist()]
+                    seen.append(g)
+                except Exception as e:  # noqa
+                    seen.append({"unrecorded": f"{type(e).__name__}: {e}"[:200]})
+                return orig(self, gts, hap_gts)
+            return transform
+
+        saved = (_hm.Haplotypes.transform, _tr.HaplotypesAncestry.transform)
+        _hm.Haplotypes.transform = wrap(saved[0])
+        _tr.HaplotypesAncestry.transform = wrap(saved[1])
+        try:
+            res = self._run_three(inp, run, gtf, hapf, outf, reg, use_anc, opts, warned)
+        finally:
+            _hm.Haplotypes.transform, _tr.HaplotypesAncestry.transform = saved
+        res["geno"] = seen[0] if len(seen) == 1 else (None if not seen else {"unrecorded": f"{len(seen)} calls"})
+        return res
+
+    def _run_three(self, inp, run, gtf, hapf, outf, reg, use_anc, opts, warned):
+        from pathlib import Path
 
         try:
             if run["cli"]:
@@ -1220,6 +1556,12 @@ class File(Relation):
                     args += ["-i", i]
                 if use_anc:
                     args += ["--ancestry"]
+                if opts.get("discard"):
+                    args += ["--discard-missing"]
+                if opts.get("maf") is not None:
+                    args += ["--maf", repr(float(opts["maf"]))]
+                if opts.get("chunk") is not None:
+                    args += ["--chunk-size", str(int(opts["chunk"]))]
                 res = CliRunner().invoke(main, args, catch_exceptions=True)
                 if res.exception is not None and not isinstance(res.exception, SystemExit):
                     raise res.exception
@@ -1230,7 +1572,8 @@ class File(Relation):
                 from haptools.transform import transform_haps
 
                 transform_haps(Path(gtf), Path(hapf), reg, set(inp["samp"]) if inp["samp"] is not None else None,
-                               set(inp["ids"]) if inp["ids"] is not None else None, None, False, use_anc, None,
+                               set(inp["ids"]) if inp["ids"] is not None else None, opts.get("chunk"),
+                               bool(opts.get("discard")), use_anc, opts.get("maf"),
                                Path(outf), getLogger("transform", "WARNING"))
         except Exception as e:  # noqa
             return {"err": err_kind(e), "cls": type(e).__name__, "msg": str(e)[:200], "warned": warned()}
@@ -1261,6 +1604,7 @@ class File(Relation):
 
     def encode(self, inp, obs):
         terms = []
+        opts = inp.get("opts") or {}
         runs = obs.get("runs") if isinstance(obs, dict) else None
         os_ = [(runs[i] if runs else {"err": (obs.get("kind", 99) if isinstance(obs, dict) else 99)})
                for i in range(len(inp["runs"]))]
@@ -1284,8 +1628,33 @@ class File(Relation):
             ot = out_term(o, I)
             # what the other runs on the same logical data (other ancestry source / file formats) answered
             peers = L.lst([out_term(os_[j], I) for j in range(len(os_)) if j != i and "ok" in os_[j]])
-            terms.append(f"(mkx (mkf {t} {ot} {L.b(o.get('warned', False))}) {peers})")
+            terms.append(f"(mko (mkoc {t} {self._extra(inp)} {ot} {L.b(o.get('warned', False))}) "
+                         f"{L.hexfloat(opts.get('maf') if opts.get('maf') is not None else 0.0)} {peers} "
+                         f"{self._geno_term(o.get('geno'), I)})")
         return terms
+
+    def _geno_term(self, g, I):
+        """C04_CheckOpt.ogeno: what the recorder saw at hp.transform(gt, hp_gt); an unreadable record is encoded as
+        a genotype object without samples and records plus the pseudo haplotype ID -1 (agree = false)"""
+        if g is None:
+            return "None"
+        if "unrecorded" in g:
+            return "(Some (mkog [] [] [] [] [(-1)]))"
+        anc = rows_term(g["anc"], lambda x: L.z(I(x))) if g["anc"] is not None else "[]"
+        return (f"(Some (mkog {L.zl([I(s) for s in g['samples']])} {recs_term(g['vars'], I)} "
+                f"{rows_term(g['data'], L.z)} {anc} {L.zl([I(h) for h in g['haps']])}))")
+
+    def _extra(self, inp):
+        """the calls written unphased and the options: C04_ModelOpt.textra"""
+        opts = inp.get("opts") or {}
+        unph = {(int(a), int(b)) for a, b in (inp.get("unph") or [])}
+        if unph:
+            n, p = len(inp["samples"]), len(inp["vars"])
+            ut = L.lst([[((s, j) in unph) for j in range(p)] for s in range(n)], lambda row: L.lst(row, L.b))
+        else:
+            ut = "[]"
+        return (f"(mke {ut} {L.b(bool(opts.get('discard')))} {L.b(opts.get('maf') is not None)} "
+                f"{L.opt(opts.get('chunk'), L.z)})")
 
     # ---- bookkeeping
     def _features(self, inp):
@@ -1345,8 +1714,24 @@ class File(Relation):
                 out.append("pop-and-bp-both-answered")
         if any(not h["rep"] and not h["vars"] for h in inp["haps"]):
             out.append("haplotype-without-variants")
-        if "+" in inp["kind"]:
-            out.append(inp["kind"].split("+")[1])
+        out += inp["kind"].split("+")[1:]
+        opts = inp.get("opts") or {}
+        miss = [c for row in inp["data"] for c in row if 255 in c]
+        if miss:
+            out.append("missing-calls" + ("-discarded" if opts.get("discard") else "-refused"))
+            if any((c[0] == 255) != (c[1] == 255) for c in miss):
+                out.append("half-missing-call")
+        if inp.get("unph"):
+            het = any(inp["data"][a][b][0] != inp["data"][a][b][1] and 255 not in inp["data"][a][b] for a, b in inp["unph"])
+            out.append("unphased-" + ("heterozygous" if het else "homozygous-or-missing"))
+        if opts.get("maf") is not None:
+            out.append("maf")
+            if isinstance(obs, dict) and "runs" in obs:
+                exp_n = len([h for h in inp["haps"] if not h["rep"]])
+                if any("ok" in o and 0 < len(o["ok"]["recs"]) < exp_n for o in obs["runs"]):
+                    out.append("maf-drops-some-haplotypes")
+        if opts.get("chunk") is not None:
+            out.append("chunk-size")
         if isinstance(obs, dict) and "runs" in obs:
             for run, o in zip(inp["runs"], obs["runs"]):
                 tag = f"{run['fmt']}/{run['src']}->{run['out']}{'/cli' if run['cli'] else ''}"
@@ -1451,7 +1836,14 @@ LEVEL_NOTE = (
     "lines, no history of sort/subset/re-read changes a single or whole-set answer, duplicate IDs => ValueError, "
     "omitted => warned; the boolean "
     "checkers evaluated on the implementation's output are proved sound. Not modelled: duplicate variant IDs in a "
-    "genotype FILE (Genotypes.read stops after as many matching records as IDs were asked for), missing/unphased genotypes, "
-    "--discard-missing, --maf, --chunk-size, the text of log messages; region semantics only for one-base REF alleles."
+    "genotype FILE (Genotypes.read stops after as many matching records as IDs were asked for), haploid calls, more than "
+    "32767 haplotypes (np.int16), the text of log messages; region semantics only for one-base REF alleles. Second round: "
+    "missing / unphased calls, --discard-missing, --maf, --chunk-size and the 256-label limit of the np.uint8 ancestry "
+    "codes are modelled (C04_ModelOpt.transform_haps_o = checks ; transform_haps on the surviving samples ; MAF filter), "
+    "with: an answer only on the property's domain, discarding a sample changes no other row and no record "
+    "(f_expected of a restricted input), closed form on well-formed inputs, the MAF filter's specification, soundness "
+    "of the new checker holds_o and of its exact-arithmetic margins, the model's answer passes holds_o; agree also compares "
+    "the genotype object handed to Haplotypes[Ancestry].transform with the model's (model_geno), and the answer is proved "
+    "to be the set-wise transform of exactly that object."
 )
 TECHNIQUE = "Coq proof by induction on haplotype/variant lists + vm_compute-evaluated correspondence against the implementation"
